@@ -316,8 +316,29 @@ Proof.
   { apply cap_set_state; [exact I0|].
     intros c b Hl. exfalso. destruct I0 as [H1 _ _ _ _ _ _ _ _ _ _ _].
     exact (not_recorded_fresh _ Eg c (H1 _ _ _ Hl)). }
-  destruct f; cbn [fst]; [exact I1|].
-  eapply cap_same_core; [| | | |exact I1]; reflexivity.
+  destruct f; cbn [fst].
+  - apply cap_set_state; [exact I1|]. intros c b Hl. exfalso. destruct I0 as [H1 _ _ _ _ _ _ _ _ _ _ _].
+    exact (not_recorded_fresh _ Eg c (H1 _ _ _ Hl)).
+  - eapply cap_same_core; [| | | |exact I1]; reflexivity.
+Qed.
+
+Lemma cap_dial_addr_missing m l p : CapInv L m l -> CapInv L (fst (do_dial_addr_missing L m p)) l.
+Proof.
+  intros I. unfold do_dial_addr_missing.
+  destruct (limit_reached (max_out L) (outs m)); [exact I|].
+  assert (I0 : CapInv L (set_known (bump_conn m) p) l).
+  { eapply cap_same_core; [| | | |exact I]; reflexivity. }
+  destruct (can_dial (state_of (set_known (bump_conn m) p) p)) eqn:Eg; try exact I0.
+  assert (Hnone : forall c b, lookup c l = Some (p, b) -> False).
+  { intros c b Hl. destruct I0 as [H1 _ _ _ _ _ _ _ _ _ _ _]. exact (not_recorded_fresh _ Eg c (H1 _ _ _ Hl)). }
+  cbn [fst]. apply cap_set_state; [apply cap_set_state; [exact I0|]|]; intros c b Hl; exfalso; eauto.
+Qed.
+
+Lemma cap_dial_shape m l a : CapInv L m l -> CapInv L (fst (do_dial_shape L m a)) l.
+Proof.
+  intros I. unfold do_dial_shape.
+  destruct (limit_reached (max_out L) (outs m)); [exact I|].
+  destruct (DialShape.dial_shape LISTEN a); [exact I | now apply cap_dial_addr | now apply cap_dial_addr_missing].
 Qed.
 
 Lemma cap_dial_failure m l c pa : CapInv L m l -> CapInv L (fst (do_dial_failure m c pa)) l.
@@ -603,7 +624,7 @@ Theorem cap_step m l e :
   CapInv L m l -> env_ok m l e ->
   CapInv L (fst (step L m e)) (live_step e (snd (step L m e)) l).
 Proof.
-  intros I He. destruct e as [p f|p f|p|c pa|c f|c pa|p c lst f|c|c ok|p c|]; cbn [step live_step env_ok] in *.
+  intros I He. destruct e as [p f|p f|p|c pa|c f|c pa|p c lst f|c|c ok|p c| |a]; cbn [step live_step env_ok] in *.
   - now apply cap_dial_peer.
   - now apply cap_dial_addr.
   - cbn [fst]. eapply cap_same_core; [| | | |exact I]; reflexivity.
@@ -616,6 +637,7 @@ Proof.
   - destruct He as [He1 He2]. pose proof (cap_closed m l p c I He1 He2) as K.
     destruct (do_closed m p c) as [m1 rep]. exact K.
   - cbn [fst]. eapply cap_same_core; [| | | |exact I]; reflexivity.
+  - now apply cap_dial_shape.
 Qed.
 
 (* runs with the ghost ledger *)
